@@ -72,7 +72,7 @@ for pid in ALL:
 na = [{"property_id": p, "reason": NA.get(p, "check not built yet in this revision of /verif (work in progress; see DESIGN.md section 9)")} for p in ALL if p not in CHECKS]
 m = {
  "version": 1,
- "setup_cmd": "cd sim && CARGO_NET_OFFLINE=true cargo build --release --offline",
+ "setup_cmd": "cd sim && CARGO_NET_OFFLINE=true cargo build --release --offline && cd ../native && (CARGO_NET_OFFLINE=true cargo +nightly miri run --offline -q -- list > /dev/null 2>&1 || true)",
  "hooks": {
    "guard": "--cfg kanal_verif",
    "enable": "the simulator workspace /verif/sim sets rustflags --cfg kanal_verif (.cargo/config.toml) and builds package 'kanal' through a shadow manifest (sim/kanal-shadow/Cargo.toml, [lib] path=/repo/src/lib.rs) that adds the dependency on the simulation runtime; /repo/Cargo.toml only gains a check-cfg lint entry",
@@ -83,6 +83,9 @@ m = {
  "engines": [
    {"name": "ksim", "path": "/verif/sim", "serves_properties": sorted(CHECKS.keys()),
     "kind_free_text": "deterministic simulator: all tasks of a run are corosensei coroutines on one OS thread, a seeded scheduler (uniform / sticky / PCT + stall, freeze-in-critical-section, spurious-wake overlays) decides at every shimmed atomic / park / yield / clock read; virtual clock; harness executor with spurious polls, waker replacement and cancellation; replay files carry the explicit decision stream"},
+,
+   {"name": "miri", "path": "/verif/native", "serves_properties": ["C04", "C07"],
+    "kind_free_text": "second, hook-free engine: 13 fixed multi-threaded scenarios against the unmodified kanal (guard off, real std threads, owning payloads) under cargo +nightly miri with many seeds (Miri's scheduler, weak-memory emulation and clock are functions of the seed); quick 32 seeds, thorough 512 seeds per scenario; replay = (scenario, seed, flags)"},
  ],
  "checks": checks,
  "not_applicable": na,
